@@ -281,12 +281,13 @@ Proof.
   intros [Ic Ip Ir Is Iu If Ij Il Ie Im Id Ib] M0 Hb. unfold masters, all_jobs, nparse in *.
   set (sa := adv_input (d_off bs) (set_parser_bs bs st)).
   assert (Ca : contig (x_head_offs sa) (x_input_q sa) (x_tail_offs st) /\ x_head_offs st <= x_head_offs sa /\ x_head_offs sa <= d_off bs).
-  { destruct (adv_input_spec (d_off bs) (set_parser_bs bs st)) as (A1 & A2 & A3); nrm; auto. revert A1 A2 A3. nrm. auto. }
+  { assert (P0 : contig (x_head_offs (set_parser_bs bs st)) (x_input_q (set_parser_bs bs st)) (x_tail_offs (set_parser_bs bs st))) by (nrm; exact Ic).
+    destruct (adv_input_spec (d_off bs) _ P0) as (A1 & A2 & A3). fold sa in A1, A2, A3. revert A1 A2 A3. nrm. intros. repeat split; auto. }
   destruct Ca as (Ca1 & Ca2 & Ca3).
   assert (Nq : Forall (fun j => dbs_norm (r_cur j) = true) (x_retr_q st)).
   { apply Forall_app in Ij. destruct Ij as [Ij _]. eapply Forall_impl; [|exact Ij]. intros j J. apply J. }
   pose proof (adv_retr_spec (length (x_retr_q st)) (x_head_offs sa) (x_retr_q st) (le_n _) Nq) as SP.
-  set (dk := adv_retr (length (x_retr_q st)) (x_head_offs sa) (x_retr_q st)) in *. simpl in SP.
+  cbv zeta in SP. set (dk := adv_retr (length (x_retr_q st)) (x_head_offs sa) (x_retr_q st)) in *.
   destruct SP as (K1 & K2 & K3).
   set (us' := if c_advance_drops_link cfg then drop_links (fst dk) (x_unords st) else x_unords st).
   assert (ST : forall u, In u us' -> exists u0, In u0 (x_unords st) /\ stems u u0).
